@@ -714,7 +714,7 @@ fn eval0(g: &G, pos: usize, env: Env, w: &mut World) -> R {
             w.consume(pos + 1);
             Some((pos + 2, Val::P(bx(Val::T(*a)), bx(Val::T(*c)))))
         }
-        Any => match t.get(pos) {
+        Any | AnyRef => match t.get(pos) {
             Some(c) => {
                 w.consume(pos);
                 Some((pos + 1, Val::T(*c)))
@@ -745,7 +745,7 @@ fn eval0(g: &G, pos: usize, env: Env, w: &mut World) -> R {
                 None
             }
         },
-        Select(s) => match t.get(pos) {
+        Select(s) | SelectRef(s) => match t.get(pos) {
             Some(c) if s.contains(*c) => {
                 w.consume(pos);
                 let v = Val::Tag(*c);
